@@ -186,6 +186,9 @@ func ForEco(name string) Scenario {
 		marked = append(marked, va+postM)
 	}
 	inputs = append(inputs, marked...)
+	for _, sep := range []string{"-", ".", "_", ""} {
+		inputs = append(inputs, va+sep+"nightly", va+sep+"canary")
+	}
 	if len(b) > 3 {
 		inputs = append(inputs, b[3])
 	}
@@ -307,7 +310,17 @@ func ForEco(name string) Scenario {
 		ops = append(ops, cmp(va, m), cmp(m, va))
 	}
 	if len(b) > 3 {
-		ops = append(ops, contains(r1, b[3]), contains(r2, b[3]))
+		ops = append(ops, contains(r1, b[3]), contains(r2, b[3]), cmp(vb, b[3]), cmp(b[3], vb))
+	}
+	// two words no qualifier table knows, in both orders (rank tables that grow on first sight)
+	for _, sep := range []string{"-", ".", "_", ""} {
+		u1, u2 := va+sep+"nightly", va+sep+"canary"
+		if _, e1 := eco.SafeParse(e, u1); e1 == nil {
+			if _, e2 := eco.SafeParse(e, u2); e2 == nil {
+				ops = append(ops, cmp(u1, u2), cmp(u2, u1))
+				break
+			}
+		}
 	}
 	// many comparisons of a deeply nested / very long version in ONE operation (depth counters,
 	// recursion guards and scratch state that leak a little per call)
